@@ -509,6 +509,9 @@ def _consumers_orderfree(ctx, f, where, n, local, attr):
                 ok = True       # concatenation stored into another tainted attribute (followed transitively)
             elif isinstance(p, ast.Assign) and x is p.value:
                 ok = True
+            elif isinstance(p, ast.Starred) and isinstance(getattr(p, '_parent', None), (ast.List, ast.Tuple, ast.Set)) \
+                    and isinstance(getattr(p._parent, '_parent', None), ast.Assign):
+                ok = True       # [*a, *self.X] stored into another attribute: a concatenation (followed transitively)
             if not ok:
                 bad.append((ff, x.lineno, norm(p)[:70]))
     ctx.ob('C20.hash-order', f'{f.split("/")[-1]}:{where}:{norm(n)[:70]}', not bad,
